@@ -10,6 +10,7 @@ import (
 	"testing"
 
 	"github.com/bilibili/smgo/sm2/internal/fiat"
+	"verif/guard"
 	"verif/refs/sm2ref"
 	"verif/vx"
 )
@@ -252,6 +253,8 @@ func c16unary(r *vx.R, field string, ab []byte) {
 	}
 }
 
+var c16ro = guard.NewRO(1)
+
 func c16decode(r *vx.R, field string, b []byte, shape string) {
 	m := modulus(field)
 	e := newElem(field)
@@ -259,8 +262,17 @@ func c16decode(r *vx.R, field string, b []byte, shape string) {
 	one.one()
 	e.set(one)
 	r.Eval(1)
+	// the encoding lives in memory the process may not write: a decoder only reads its input
+	c16ro.Reset()
+	b = c16ro.Put(b)
+	c16ro.Seal()
+	defer c16ro.Reset()
 	var ok bool
-	kind, msg := vx.Try(func() { ok = e.setBytes(b) })
+	kind, msg := vx.TryFault(func() { ok = e.setBytes(b) })
+	if kind == "fault" {
+		r.Violation("fe:"+field+":SetBytes-writes-input", fmt.Sprintf("SetBytes stored into its input (placed in read-only memory): %s", msg), c16case{field, "decode", vx.Hex(append([]byte{}, b...)), ""})
+		return
+	}
 	if kind != "" {
 		r.Violation("fe:"+field+":SetBytes-panic", fmt.Sprintf("SetBytes(%x) panicked: %s", b, msg), c16case{field, "decode", vx.Hex(b), ""})
 		return
